@@ -12,6 +12,26 @@ package framework
 // index of the log entry an undo entry reverses
 //@ define undoTarget(o Operation) int = unbox(o, "undoOperation").operationIndex
 
+// the task an entry is about (undo entries carry a fresh placeholder task with empty UID/Job)
+//@ define opTask(o Operation) *pod_info.PodInfo = ite(isEvictOp(o), unbox(o, "evictOperation").taskInfo, ite(isPipelineOp(o), unbox(o, "pipelineOperation").taskInfo, unbox(o, "allocateOperation").taskInfo))
+// the closure stored in an entry that reverses it
+//@ define revFn(o Operation) ReverseOperation = ite(isEvictOp(o), unbox(o, "evictOperation").reverseOperation, ite(isPipelineOp(o), unbox(o, "pipelineOperation").reverseOperation, ite(isAllocateOp(o), unbox(o, "allocateOperation").reverseOperation, unbox(o, "undoOperation").reverseOperation)))
+//@ define opName(o Operation) string = ite(isEvictOp(o), "evict", ite(isPipelineOp(o), "pipeline", ite(isAllocateOp(o), "allocate", "undo")))
+
+// Interface-level contracts (used at `invoke` sites): assumed, but each of the four in-repo
+// implementations is verified below against the same statement; `requires knownOp(recv)` makes the
+// closed-world step explicit at every call site.
+//@ func Operation.Name
+//@   requires knownOp(recv)
+//@   pure
+//@   ensures result == opName(recv)
+//@ end
+//@ func Operation.TaskInfo
+//@   requires knownOp(recv)
+//@   ensures !isUndoOp(recv) ==> result == opTask(recv)
+//@   ensures isUndoOp(recv) ==> fresh(result) && result.UID == "" && result.Job == ""
+//@ end
+
 //@ func (evictOperation).Name
 //@   props C13
 //@   pure
@@ -33,10 +53,34 @@ package framework
 //@   ensures result == "undo"
 //@ end
 
+//@ func (evictOperation).TaskInfo
+//@   props C13
+//@   pure
+//@   ensures result == op.taskInfo
+//@ end
+//@ func (pipelineOperation).TaskInfo
+//@   props C13
+//@   pure
+//@   ensures result == op.taskInfo
+//@ end
+//@ func (allocateOperation).TaskInfo
+//@   props C13
+//@   pure
+//@   ensures result == op.taskInfo
+//@ end
+//@ func (undoOperation).TaskInfo
+//@   props C13
+//@   fresh
+//@   ensures result.UID == "" && result.Job == ""
+//@ end
+
 // ---- statement.go: the undo log ------------------------------------------------------------------
 // Well-formed log: only the four in-repo entry kinds, and an undo entry points strictly backwards
 // (DESIGN C13: "log invariant undo@j => target < j"; it is what makes operationValid terminate).
-//@ define wfLog(s *Statement) bool = (len(s.operations) > 0 ==> knownOp(s.operations[0])) && forall j int :: 0 <= j && j < len(s.operations) ==> knownOp(s.operations[j]) && (isUndoOp(s.operations[j]) ==> 0 <= undoTarget(s.operations[j]) && undoTarget(s.operations[j]) < j)
+//@ define wfKnown(s *Statement) bool = (len(s.operations) > 0 ==> knownOp(s.operations[0])) && forall j int :: 0 <= j && j < len(s.operations) ==> knownOp(s.operations[j])
+//@ define wfRev(s *Statement) bool = forall j int :: 0 <= j && j < len(s.operations) ==> revFn(s.operations[j]) != nil
+//@ define wfBack(s *Statement) bool = forall j int :: 0 <= j && j < len(s.operations) && isUndoOp(s.operations[j]) ==> 0 <= undoTarget(s.operations[j]) && undoTarget(s.operations[j]) < j
+//@ define wfLog(s *Statement) bool = wfKnown(s) && wfRev(s) && wfBack(s)
 // entry j is an undo entry for entry i
 //@ define targets(s *Statement, j int, i int) bool = isUndoOp(s.operations[j]) && undoTarget(s.operations[j]) == i
 //@ define noUndoFor(s *Statement, i int) bool = forall j int :: 0 <= j && j < len(s.operations) ==> !targets(s, j, i)
@@ -63,4 +107,80 @@ package framework
 //@   ensures [undone] forall j int :: firstUndoFor(s, i, j) && noUndoFor(s, j) ==> !result
 //@   ensures [redone] forall j int, k int :: firstUndoFor(s, i, j) && firstUndoFor(s, j, k) && noUndoFor(s, k) ==> result
 //@   ensures [parityOnFlat] flatLog(s) ==> (result <==> noUndoFor(s, i))
+//@ end
+
+// ---- frame facts about ALL statements (callees run plugin code, so their frame is `modifies *`) --
+// The log field is unexported and only Statement methods assign it; every such assignment appends
+// (or happens in Rollback/Discard/Commit/ConvertAllAllocatedToPipelined, which no ReverseOperation
+// or event handler calls). Hence, across any ReverseOperation / handler call: logs only grow and
+// existing entries stay.
+//@ define logsGrow() bool = forall st *Statement :: len(st.operations) >= old(len(st.operations))
+//@ define entriesKept() bool = forall st *Statement, j int :: 0 <= j && j < old(len(st.operations)) ==> st.operations[j] == old(st.operations[j])
+//@ define wfKept() bool = forall st *Statement :: old(wfLog(st)) ==> wfLog(st)
+// address-taken locals of the caller (captured by the redo closures) are not reachable by the callee
+//@ define localsKept() bool = (forall p **Statement :: *p == old(*p)) && (forall p *Operation :: old(allocated(p)) ==> *p == old(*p))
+
+// number of ReverseOperation invocations so far (ghost): lets callers state "nothing is reversed for
+// an already undone entry" and "exactly one reversal per undone entry".
+//@ ghost reversals() int
+
+//@ func type:ReverseOperation
+//@   modifies *
+//@   ensures [assumed] logsGrow() && entriesKept() && wfKept() && localsKept()
+//@   ensures [assumed] reversals() == old(reversals()) + 1
+//@   note every ReverseOperation value is one of the closures created in Evict/Pipeline/Allocate/undoOperation; each calls unevict/unpipeline/unallocate or Evict/Pipeline/Allocate/undoOperation, which only append to logs
+//@ end
+
+//@ func Operation.Reverse
+//@   requires knownOp(recv) && revFn(recv) != nil
+//@   modifies *
+//@   ensures [assumed] logsGrow() && entriesKept() && wfKept() && localsKept()
+//@   ensures [assumed] reversals() == old(reversals()) + 1
+//@   note assumed at invoke sites; the four implementations (below) just call the stored ReverseOperation and are verified against this statement
+//@ end
+//@ func (evictOperation).Reverse
+//@   props C13
+//@   requires op.reverseOperation != nil
+//@   modifies *
+//@   ensures logsGrow() && entriesKept() && wfKept() && localsKept()
+//@   ensures reversals() == old(reversals()) + 1
+//@ end
+//@ func (pipelineOperation).Reverse
+//@   props C13
+//@   requires op.reverseOperation != nil
+//@   modifies *
+//@   ensures logsGrow() && entriesKept() && wfKept() && localsKept()
+//@   ensures reversals() == old(reversals()) + 1
+//@ end
+//@ func (allocateOperation).Reverse
+//@   props C13
+//@   requires op.reverseOperation != nil
+//@   modifies *
+//@   ensures logsGrow() && entriesKept() && wfKept() && localsKept()
+//@   ensures reversals() == old(reversals()) + 1
+//@ end
+//@ func (undoOperation).Reverse
+//@   props C13
+//@   requires op.reverseOperation != nil
+//@   modifies *
+//@   ensures logsGrow() && entriesKept() && wfKept() && localsKept()
+//@   ensures reversals() == old(reversals()) + 1
+//@ end
+
+// entry i was undone and that undo is live (depth-2 case of operationValid)
+//@ define undone(s *Statement, i int) bool = exists j int :: firstUndoFor(s, i, j) && noUndoFor(s, j)
+
+// C13: "undoOperation appends one undo entry, reverses only valid ops".
+//@ func (*Statement).undoOperation
+//@   props C13
+//@   requires s != nil && wfLog(s) && 0 <= index && index < len(s.operations)
+//@   modifies *
+//@   ensures [lenGrows] len(s.operations) >= old(len(s.operations))
+//@   ensures [prefixKept] forall j int :: 0 <= j && j < old(len(s.operations)) ==> s.operations[j] == old(s.operations[j])
+//@   ensures [wfKnown] wfKnown(s)
+//@   ensures [wfRev] wfRev(s)
+//@   ensures [wfBack] wfBack(s)
+//@   ensures [invalidSkipped] old(undone(s, index)) ==> result == nil && len(s.operations) == old(len(s.operations)) && reversals() == old(reversals())
+//@   ensures [validReversedOnce] old(noUndoFor(s, index)) ==> reversals() == old(reversals()) + 1
+//@   ensures [appendsUndoEntry] old(noUndoFor(s, index)) && result == nil ==> len(s.operations) > old(len(s.operations)) && targets(s, len(s.operations) - 1, index)
 //@ end
